@@ -747,19 +747,13 @@ func (v Value) evaluateBreak(labels []string) resultKind {
 func (v Value) toReflectValue(typ reflect.Type) (reflect.Value, error) {
 	kind := typ.Kind()
 	switch kind {
-	case reflect.Float32, reflect.Float64, reflect.Interface:
-	default:
-		switch value := v.value.(type) {
-		case float32:
-			_, frac := math.Modf(float64(value))
-			if frac > 0 {
-				return reflect.Value{}, fmt.Errorf("RangeError: %v to reflect.Kind: %v", value, kind)
-			}
-		case float64:
-			_, frac := math.Modf(value)
-			if frac > 0 {
-				return reflect.Value{}, fmt.Errorf("RangeError: %v to reflect.Kind: %v", value, kind)
-			}
+	case reflect.Int, reflect.Int8, reflect.Int16, reflect.Int32, reflect.Int64,
+		reflect.Uint, reflect.Uint8, reflect.Uint16, reflect.Uint32, reflect.Uint64:
+		// An integer element does not accept a fraction, of either sign and
+		// also when it comes from a numeric string. (NaN is still stored as 0:
+		// Test_reflectMap pins that behaviour.)
+		if value := v.float64(); !math.IsNaN(value) && !math.IsInf(value, 0) && value != math.Trunc(value) {
+			return reflect.Value{}, fmt.Errorf("RangeError: %v to reflect.Kind: %v", value, kind)
 		}
 	}
 
